@@ -83,11 +83,14 @@ FRACS = [F(0), F(1, 2), F(1), F(3, 2), F(2), F(5, 2), F(3), F(1, 4), F(3, 4), F(
 
 
 def gen_problem(rng, profile=None):
-    """A small temporal problem. profile: 'grid' (integer times only) | 'offgrid' (fractional constants) | None = random."""
+    """A small temporal problem. profile: 'grid' (integer times only) | 'offgrid' (fractional constants) |
+    'eps' (integer constants, STRICT temporal constraints: the planner places the atoms at t + k*epsilon, with t on the grid of
+    the ticks, so that "planned at t + eps" and "dispatched in the tick of time t" differ) | None = random."""
     pr = Problem()
-    profile = profile or rng.choice(["grid", "offgrid", "offgrid"])
-    consts = [F(0), F(1), F(2), F(3)] if profile == "grid" else FRACS
-    durs = [None, F(1), F(2), F(3)] if profile == "grid" else [None, F(1), F(2), F(1, 2), F(3, 2), F(5, 2)]
+    profile = profile or rng.choice(["grid", "offgrid", "offgrid", "eps"])
+    eps = profile == "eps"
+    consts = [F(0), F(1), F(2), F(3)] if profile in ("grid", "eps") else FRACS
+    durs = [None, F(1), F(2), F(3)] if profile in ("grid", "eps") else [None, F(1), F(2), F(1, 2), F(3, 2), F(5, 2)]
     n_int = rng.randint(2, 4)
     n_imp = rng.randint(0, 2)
     names = ["P%d" % i for i in range(n_int)]
@@ -122,7 +125,7 @@ def gen_problem(rng, profile=None):
             q = rng.choice(higher + inames) if inames and rng.random() < 0.3 else rng.choice(higher)
             gap = rng.choice(consts[:5])
             tp = "at" if q in inames else "start"
-            bodies[n].append("goal q = new %s(); q.%s >= end + %s;" % (q, tp, dec(gap)))
+            bodies[n].append("goal q = new %s(); q.%s %s end + %s;" % (q, tp, ">" if eps and rng.random() < 0.6 else ">=", dec(gap)))
         elif r < 0.5 and len(higher) >= 1:
             q1 = rng.choice(higher)
             q2 = rng.choice(higher + inames)
@@ -168,7 +171,20 @@ def gen_problem(rng, profile=None):
     for j in range(ng):
         for i in range(j):
             r = rng.random()
-            if r < 0.25:
+            if eps and r < 0.22:
+                c = rng.choice(consts[:3])
+                L.append("g%d.%s > g%d.%s + %s;" % (j, tp(j, "start"), i, tp(i, "end"), dec(c)))
+                pr.cons.append(("after_s", j, i, c))
+            elif eps and r < 0.36:
+                L.append("g%d.%s < g%d.%s;" % (i, tp(i, "start"), j, tp(j, "start")))
+                pr.cons.append(("lts", j, i, F(0)))
+            elif eps and r < 0.42:
+                c = rng.choice(consts[:6])
+                L.append("g%d.%s >= g%d.%s + %s;" % (j, tp(j, "start"), i, tp(i, "end"), dec(c)))
+                pr.cons.append(("after", j, i, c))
+            elif eps:
+                pass
+            elif r < 0.25:
                 c = rng.choice(consts[:6])
                 L.append("g%d.%s >= g%d.%s + %s;" % (j, tp(j, "start"), i, tp(i, "end"), dec(c)))
                 pr.cons.append(("after", j, i, c))
@@ -181,7 +197,20 @@ def gen_problem(rng, profile=None):
                 pr.cons.append(("within", j, i, c))
     for g in range(ng):
         r = rng.random()
-        if r < 0.4:
+        if eps and r < 0.55:
+            c = rng.choice(consts + [F(4), F(5)])
+            L.append("g%d.%s > %s;" % (g, tp(g, "start"), dec(c)))
+            pr.cons.append(("gt", g, None, c))
+            if rng.random() < 0.3:
+                L.append("g%d.%s < %s;" % (g, tp(g, "start"), dec(c + 6)))
+                pr.cons.append(("lt", g, None, c + 6))
+        elif eps and r < 0.7:
+            c = rng.choice(consts)
+            L.append("g%d.%s >= %s;" % (g, tp(g, "start"), dec(c)))
+            pr.cons.append(("ge", g, None, c))
+        elif eps:
+            pass
+        elif r < 0.4:
             c = rng.choice(consts)
             L.append("g%d.%s >= %s;" % (g, tp(g, "start"), dec(c)))
             pr.cons.append(("ge", g, None, c))
@@ -203,7 +232,10 @@ ODD_DELAYS = [F(0), F(-1), F(-1, 2)]
 
 def gen_script(rng, pr, profile, odd=False):
     """Script lines for the harness: delays at starting / ending keyed by (atom, occurrence), failures, stale requests."""
-    units = rng.choice([F(1)] * 5 + [F(1, 2), F(2), F(3, 2)]) if profile != "grid" else rng.choice([F(1), F(1), F(2)])
+    if profile == "eps":
+        units = rng.choice([F(1), F(1), F(1), F(1, 2)])     # every integer constant is the time of some tick
+    else:
+        units = rng.choice([F(1)] * 5 + [F(1, 2), F(2), F(3, 2)]) if profile != "grid" else rng.choice([F(1), F(1), F(2)])
     ticks = int(min(60, rng.randint(12, 22) / float(units) + 2))
     lines = ["units %d %d" % (units.numerator, units.denominator), "ticks %d" % ticks]
     for v, _, _ in pr.goals:
@@ -212,7 +244,9 @@ def gen_script(rng, pr, profile, odd=False):
     for n, p in pr.preds.items():
         for k in range(3):
             atoms.append((p["qual"] + "#%d" % k, p))
-    pool = [d for d in DELAYS if profile != "grid" or d.denominator == 1]
+    pool = [d for d in DELAYS if profile not in ("grid", "eps") or d.denominator == 1]
+    if profile == "eps" and units == F(1, 2):
+        pool = pool + [F(1, 2), F(3, 2)]                    # delayed times stay on the grid of the ticks
     stats = {"s": 0, "e": 0, "f": 0, "pre": 0, "odd": 0, "burst": 0}
 
     def pick():
@@ -348,6 +382,14 @@ def check_plan(pr, plan):
             a, b = val(j, "start"), val(i, "end")
             if a is not None and b is not None and not a >= add(b, q):
                 bad.append("after:g%s,g%s" % (j, i))
+        elif kind == "after_s":
+            a, b = val(j, "start"), val(i, "end")
+            if a is not None and b is not None and not a > add(b, q):
+                bad.append("after_s:g%s,g%s" % (j, i))
+        elif kind == "lts":
+            a, b = val(j, "start"), val(i, "start")
+            if a is not None and b is not None and not a > b:
+                bad.append("lts:g%s,g%s" % (j, i))
         elif kind == "eqs":
             a, b = val(j, "start"), val(i, "start")
             if a is not None and b is not None and a != b:
@@ -356,7 +398,7 @@ def check_plan(pr, plan):
             a, b = val(j, "end"), val(i, "start")
             if a is not None and b is not None and not a <= add(b, q):
                 bad.append("within:g%s,g%s" % (j, i))
-        elif kind in ("ge", "gt", "le"):
+        elif kind in ("ge", "gt", "le", "lt"):
             a = val(j, "start")
             if a is not None:
                 if kind == "ge" and not a >= (q, F(0)):
@@ -365,6 +407,8 @@ def check_plan(pr, plan):
                     bad.append("gt:g%s" % j)
                 if kind == "le" and not a <= (q, F(0)):
                     bad.append("le:g%s" % j)
+                if kind == "lt" and not a < (q, F(0)):
+                    bad.append("lt:g%s" % j)
     # state variables: active atoms on the same instance do not overlap (half-open intervals)
     by_inst = {}
     for n, a in atoms.items():
@@ -401,6 +445,7 @@ def judge(pr, items, units, crashed=None):
     pend_s, pend_e = set(), set()           # stale requests made outside callbacks, not yet consumed
     cur_S, cur_E = [], []
     ticks_seen = 0
+    eps = {"dispatched": 0, "boundary": 0}
     call_ct = None
     finished = False
     raised = False
@@ -474,7 +519,9 @@ def judge(pr, items, units, crashed=None):
                 if rec is None or rec["state"] != "A":
                     viol("exec:start-of-inactive", a)
                     continue
-                if not rec["start"] <= (call_ct, F(0)):
+                if rec["start"][1] != 0:
+                    eps["dispatched"] += 1
+                if not rec["start"] <= (call_ct, F(0)):   # exact inf_rational comparison: (rational, infinitesimal) lexicographic
                     viol("exec:before-planned-time", "start %s planned %s at time %s" % (a, s_ir(rec["start"]), call_ct))
                 if a in asked_s:
                     viol("exec:start-in-delayed-tick", "%s started in the tick (time %s) in which a delay was requested" % (a, call_ct))
@@ -490,6 +537,8 @@ def judge(pr, items, units, crashed=None):
                 if rec is None or rec["state"] != "A":
                     viol("exec:end-of-inactive", a)
                     continue
+                if rec["end"][1] != 0:
+                    eps["dispatched"] += 1
                 if not rec["end"] <= (call_ct, F(0)):
                     viol("exec:before-planned-time", "end %s planned %s at time %s" % (a, s_ir(rec["end"]), call_ct))
                 if a in asked_e:
@@ -507,6 +556,11 @@ def judge(pr, items, units, crashed=None):
                 for a, rec in plan["atoms"].items():
                     if rec["state"] != "A":
                         continue
+                    # planned at t + k*eps (k > 0) with t the time of this tick: due in the NEXT tick, not in this one
+                    if a not in started and rec["start"][0] == ct and rec["start"][1] > 0:
+                        eps["boundary"] += 1
+                    elif a in started and a not in ended and rec["end"][0] == ct and rec["end"][1] > 0:
+                        eps["boundary"] += 1
                     if a not in started and rec["start"] <= (ct, F(0)):
                         viol("exec:delay-not-effective" if a in asked_s else "exec:lost-event",
                              "start of %s (planned %s) still pending after the tick at time %s" % (a, s_ir(rec["start"]), ct))
@@ -527,7 +581,8 @@ def judge(pr, items, units, crashed=None):
         why = crashed or "no 'done' line"
         kind = "exception" if "execution_exception" in why else "assert" if "Assertion" in why else "other"
         viol("exec:terminate:" + kind, "the process ended abnormally (%s) after %d ticks" % (why.strip()[-300:], ticks_seen))
-    return V, {"ticks": ticks_seen, "started": len(started), "ended": len(ended), "status": status}
+    return V, {"ticks": ticks_seen, "started": len(started), "ended": len(ended), "status": status,
+               "eps_dispatched": eps["dispatched"], "eps_boundary": eps["boundary"]}
 
 
 # ------------------------------------------------------------------------------------------------
